@@ -21,7 +21,9 @@ SUITE_MODULES = {
     "varint": "VarintC",
     "frame": "FrameC",
     "sheader": "FrameC",
-    "typestate": "StreamTSC",
+    "typestate": "StreamTSC", "request": "SessionC",
+    "session": "E2C", "control": "E2C", "control_cut": "E2C", "streams": "E2C", "foreign": "E2C",
+    "unknown_uni": "E2C", "stall": "E2C", "pace": "E2C",
     "wire": "WireC", "settings": "WireC", "dgram": "WireC", "capsule": "WireC", "ids": "WireC", "status": "WireC",
 }
 
@@ -29,7 +31,7 @@ SUITE_FRANGE = {
     "varint": (100, 199),
     "frame": (200, 249),
     "sheader": (250, 299),
-    "typestate": (300, 399),
+    "typestate": (300, 399), "request": (520, 529),
     "wire": (400, 499), "settings": (401, 402), "dgram": (403, 404), "capsule": (405, 406), "ids": (407, 407), "status": (408, 409),
 }
 
@@ -41,8 +43,32 @@ def suite_owns(suite, f):
 
 ENGINE_RUNNERS = {}
 
-# class predicates for open known findings (none open yet)
-KNOWN_CLASSES = {}
+def _case_args(failure):
+    """(f, args) of an oracle failure or of a disagreement record"""
+    if "case" in failure:
+        head = failure["case"].split("|")[0].strip()
+        f, _, rest = head.partition(" ")
+        args = rest
+    else:
+        f, args = str(failure.get("f")), failure.get("args", "")
+    lists = [[int(x) for x in part.split(",") if x != ""] for part in args.split(";")]
+    return int(f), lists
+
+
+def _c05_torn_frame(failure):
+    """wire family 611/612: bytes of a critical stream written in several pieces (non-empty cut list)
+    AND another connection event injected between the pieces (inject != 0)"""
+    try:
+        f, a = _case_args(failure)
+    except (ValueError, IndexError):
+        return False
+    if f not in (611, 612):
+        return False
+    return len(a) >= 3 and len(a[0]) >= 3 and a[0][2] != 0 and len(a[2]) > 0
+
+
+# class predicates for open known findings
+KNOWN_CLASSES = {"control-plane-read-future-dropped-mid-frame": _c05_torn_frame}
 
 PROPS = {
     "C14": {
@@ -76,8 +102,9 @@ PROPS["C15"] = {
 
 PROPS["C13"] = {
     "title": "Unknown and GREASE protocol elements are skipped whole, with no side effects",
-    "corr_modules": ["StreamTSC", "WireC"],
-    "suites": [("e1", "typestate", ["debug"]), ("e1", "settings", ["debug"]), ("e1", "capsule", ["debug"])],
+    "corr_modules": ["StreamTSC", "WireC", "E2C"],
+    "suites": [("e1", "typestate", ["debug"]), ("e1", "settings", ["debug"]), ("e1", "capsule", ["debug"]),
+               ("e2", "control", ["debug"]), ("e2", "unknown_uni", ["debug"])],
     "technique": PROOF_TECH,
     "level_text": "theorems: an unknown frame of any type id / payload is consumed whole on the sync and async paths of every typestate, and any number of insertions at frame boundaries leaves the delivered frames and the ending unchanged (induction over the exchange); pre-repair code refuted by a computed witness; tie: metamorphic differential runs",
     "level_note": CODEC_NOTE,
@@ -88,8 +115,8 @@ PROPS["C13"] = {
 
 PROPS["C17"] = {
     "title": "Identifier algebra is exact and foreign-session traffic is never delivered",
-    "corr_modules": ["WireC", "FrameC"],
-    "suites": [("e1", "ids", ["debug"]), ("e1", "dgram", ["debug"])],
+    "corr_modules": ["WireC", "FrameC", "E2C"],
+    "suites": [("e1", "ids", ["debug"]), ("e1", "dgram", ["debug"]), ("e2", "foreign", ["debug"])],
     "technique": PROOF_TECH,
     "level_text": "theorems for all 2^62 ids: acceptance iff client-initiated bidirectional, conversions mutually inverse and in range, unsafe preconditions never violated, parsed session ids always valid; tie: differential runs over all low-bit classes x boundary magnitudes",
     "level_note": CODEC_NOTE + "; the driver-level session filter (foreign streams stopped, foreign datagrams dropped) is exercised by the wire engine, see DESIGN.md",
@@ -112,8 +139,8 @@ PROPS["C03"] = {
 
 PROPS["C04"] = {
     "title": "Session termination is reported with the peer's exact code and reason",
-    "corr_modules": ["WireC", "StreamTSC"],
-    "suites": [("e1", "capsule", ["debug"]), ("e1", "typestate", ["debug"])],
+    "corr_modules": ["WireC", "StreamTSC", "E2C"],
+    "suites": [("e1", "capsule", ["debug"]), ("e1", "typestate", ["debug"]), ("e2", "session", ["debug"])],
     "technique": PROOF_TECH,
     "level_text": "theorems about the session-stream runner for every history of skippable elements followed by a close capsule / clean FIN / reset / FIN inside a frame / malformed capsule: exact code and reason, (0,\"\") for a clean finish, protocol failure otherwise; the wire code answered; tie: differential runs of the capsule decoders and the session typestate",
     "level_note": CODEC_NOTE + "; quinn's transport of CONNECTION_CLOSE is an oracle",
@@ -124,8 +151,8 @@ PROPS["C04"] = {
 
 PROPS["C18"] = {
     "title": "Only well-formed WebTransport requests and responses are admitted",
-    "corr_modules": ["WireC", "QpackC"],
-    "suites": [("e1", "status", ["debug"]), ("e1", "qpack", ["debug"])],
+    "corr_modules": ["WireC", "QpackC", "SessionC"],
+    "suites": [("e1", "status", ["debug"]), ("e1", "request", ["debug"])],
     "technique": PROOF_TECH,
     "level_text": "theorems: request admitted iff extended CONNECT/webtransport/https with authority and path; every status constructor stays within 100..599 (print/parse identity on the whole range by exhaustive computation inside the proof); acceptance iff 2xx; reserved fields can never be overridden; pre-repair code refuted; tie: all 65 536 status integers plus decorated strings through the real parser",
     "level_note": CODEC_NOTE + "; '+200' and '0200' denote in-range numbers and are treated as numeric (DESIGN.md 5 C18)",
@@ -151,13 +178,87 @@ PROPS["C11"] = {
 
 PROPS["C12"] = {
     "title": "HTTP/3 and WebTransport stream rules are enforced with the prescribed error",
-    "corr_modules": ["StreamTSC", "WireC"],
-    "suites": [("e1", "typestate", ["debug"]), ("e1", "settings", ["debug"])],
+    "corr_modules": ["StreamTSC", "WireC", "E2C"],
+    "suites": [("e1", "typestate", ["debug"]), ("e1", "settings", ["debug"]), ("e2", "control", ["debug"]), ("e2", "unknown_uni", ["debug"])],
     "technique": PROOF_TECH,
     "level_text": "theorems: every accept/reject verdict of every typestate for every frame is the one of an independently written specification table (RFC 9114 / WT draft) with a prescribed code; error codes equal the registry; control-stream position rules, duplicated/closed critical streams by theorems on the runner model; tie: all frame sequences to depth 3 (quick) / 4 (thorough) over the property's alphabet through the real typestates",
     "level_note": CODEC_NOTE + "; the runner functions (private driver code) are hand-transcribed and exercised end to end by the wire engine",
     "design_ref": "DESIGN.md 5 (C12)",
     "trusted_base": ["Spec/Spec9114.v is transcribed from the RFCs from memory (the texts are not on disk)"],
+    "assumptions": [],
+}
+
+WIRE_NOTE = "; the wire suites run the real driver on loopback against a raw quinn peer: quinn, tokio and the OS are exercised, not modelled"
+
+PROPS["C01"] = {
+    "title": "Stream bytes arrive exactly, in order, with framing invisible",
+    "corr_modules": ["E2C", "FrameC"],
+    "suites": [("e2", "streams", ["debug"]), ("e1", "sheader", ["debug"])],
+    "technique": PROOF_TECH,
+    "level_text": "theorems: for every valid session id, payload and stream ending the accept path strips exactly the preamble the opening path emits (uni and bidi) and hands over exactly the payload; the preamble readers are invariant under every segmentation/Pending schedule (poll machines proved); tie: the real driver reads streams written by a raw quinn peer with the preamble cut at every offset, payloads up to several KB, concurrent streams",
+    "level_note": CODEC_NOTE + WIRE_NOTE + "; QUIC is assumed to be a reliable ordered byte pipe per stream",
+    "design_ref": "DESIGN.md 5 (C01)",
+    "trusted_base": ["quinn delivers stream bytes reliably and in order"],
+    "assumptions": ["flow-control stalls are not modelled"],
+}
+
+PROPS["C05"] = {
+    "title": "Control-plane interpretation is independent of segmentation and interleaving",
+    "corr_modules": ["E2C", "FrameC"],
+    "suites": [("e2", "control_cut", ["debug"]), ("e1", "frame", ["debug"])],
+    "technique": PROOF_TECH,
+    "level_text": "theorems: without cancellation every segmentation and Pending pattern yields the same outcome (poll machines); cancelling a control-plane read that holds no partial progress is harmless; the pinned worker cancels mid-frame (refuted by a computed witness = the known finding) and that is the only failing class; tie: cut x inject matrix against the running driver, cut-only cases must agree with the uncut prediction",
+    "level_note": CODEC_NOTE + WIRE_NOTE + "; which events make a select! branch win is runtime behaviour",
+    "design_ref": "DESIGN.md 5 (C05), 6",
+    "trusted_base": ["tokio::select! drops the losing branches' futures (documented semantics)"],
+    "assumptions": [],
+}
+
+PROPS["C07"] = {
+    "title": "Streams are independent: a stalled stream never blocks the others",
+    "corr_modules": ["E2C"],
+    "suites": [("e2", "stall", ["debug"])],
+    "technique": PROOF_TECH,
+    "level_text": "theorems on the hand-off transition system for every capacity, every number of stalled streams and every interleaving: no stalled stream disables the worker, another stream's task or the application; a healthy stream is delivered by a bounded plan using only its own and worker/app steps; the pinned design is refuted (one stalled stream blocks all); tie: k stalled streams of either kind at each stall position followed by healthy ones against the running driver",
+    "level_note": CODEC_NOTE + WIRE_NOTE + "; liveness is bounded steps of the model under its scheduler; tokio wake-ups are observed, not modelled",
+    "design_ref": "DESIGN.md 5 (C07), 6",
+    "trusted_base": ["tokio mpsc / spawn semantics"],
+    "assumptions": [],
+}
+
+PROPS["C08"] = {
+    "title": "Every peer-opened stream is delivered exactly once at any acceptance pace",
+    "corr_modules": ["E2C"],
+    "suites": [("e2", "pace", ["debug"]), ("e2", "streams", ["debug"])],
+    "technique": PROOF_TECH,
+    "level_text": "theorem (induction over arbitrary label sequences = all interleavings, all capacities): the opened streams are partitioned among accept queue, tasks, channel, delivered and ended -- none lost, duplicated or invented; cancelling an accept changes nothing; tie: 10-40 (thorough 120) streams with slow, multi-task and cancelling acceptors against the running driver",
+    "level_note": CODEC_NOTE + WIRE_NOTE + "; tokio's documented cancel safety of mpsc::Receiver::recv and Mutex::lock is trusted",
+    "design_ref": "DESIGN.md 5 (C08)",
+    "trusted_base": ["tokio cancel-safety contracts"],
+    "assumptions": [],
+}
+
+PROPS["C09"] = {
+    "title": "Termination is prompt, total and never misattributed",
+    "corr_modules": ["E2C"],
+    "suites": [("e2", "session", ["debug"])],
+    "technique": PROOF_TECH,
+    "level_text": "theorems: the result cell is set at most once and every later get returns that value; each reported error names the actual cause (peer code+reason, local H3 error, transport cause, or local close); the worker closes with the code of the cause; tie: every way the session stream / connection ends x pending and subsequent calls against the running driver (none hangs, none succeeds, none panics)",
+    "level_note": CODEC_NOTE + WIRE_NOTE + "; 'bounded time' is bounded model steps; a runtime shut down under the worker is outside the model",
+    "design_ref": "DESIGN.md 5 (C09)",
+    "trusted_base": ["tokio watch channel semantics (modelled as the set-once cell)"],
+    "assumptions": [],
+}
+
+PROPS["C16"] = {
+    "title": "Everything the endpoint emits is well-formed HTTP/3 and WebTransport",
+    "corr_modules": ["WireC", "QpackC", "StreamTSC", "FrameC"],
+    "suites": [("e1", "settings", ["debug"]), ("e1", "qpack", ["debug"]), ("e1", "sheader", ["debug"]), ("e1", "typestate", ["debug"])],
+    "technique": PROOF_TECH,
+    "level_text": "theorems against independently written specification constants: control stream = type 0 + one SETTINGS frame with the WebTransport settings for every map order; stream preambles = registered type/signal + session id in minimal varints; datagrams prefixed by the quarter stream id; field sections with zero Required Insert Count/Base and sound static references; error codes equal the registry; tie: encoder outputs compared byte for byte with the model",
+    "level_note": CODEC_NOTE + "; Spec constants transcribed from the RFCs from memory",
+    "design_ref": "DESIGN.md 5 (C16)",
+    "trusted_base": ["Spec/Spec9114.v registry values"],
     "assumptions": [],
 }
 
